@@ -36,7 +36,7 @@ def main():
                     alarms.append(p if rc == 1 else p + '(rc=%d)' % rc)
                     lines += [l[:230] for l in o.splitlines() if l.startswith('FINDING')][:2]
         finally:
-            sh('git -C /repo checkout -- .')
+            sh('git -C /repo checkout -- . && git -C /repo clean -fdq -- src')
         meta_p = os.path.join(d, 'meta.json')
         meta = json.load(open(meta_p))
         meta['alarms_now'] = alarms
